@@ -320,6 +320,20 @@ def body_canonical(case, ctx):
         b = np.asarray(geo[nm])
         ctx.close("canonical(word) = inverse transpose of geometric(word)", a @ b.T, np.eye(n),
                   rtol=0, atol=1e-11 * (np.linalg.norm(a, 2) * np.linalg.norm(b, 2)), word=w)
+    # "the canonical representation is its dual", through the public dual() of the geometric
+    # representation object that has just evaluated these words (what it computed for itself
+    # is not what its dual answers), and the dual of the dual
+    dual = geo.dual()
+    back = dual.dual()
+    for w in [[i] for i in range(n)] + [w for w in case["words"] if w]:
+        nm = [names[g] for g in w]
+        a = np.asarray(can[nm])
+        d_ = np.asarray(dual[nm])
+        sc = max(1.0, np.linalg.norm(a, 2)) ** 2
+        ctx.close("geometric.dual()(word) = canonical(word)", d_, a, rtol=0, atol=1e-10 * sc,
+                  word=w)
+        ctx.close("geometric.dual().dual()(word) = geometric(word)", np.asarray(back[nm]),
+                  np.asarray(geo[nm]), rtol=0, atol=1e-10 * sc, word=w)
 
 
 def body_diagonalised(case, ctx):
